@@ -1,33 +1,44 @@
 import ScrutModel.Model.StateFile
 namespace Scrut.StateFile
 
-theorem source_funcs (d t : Bool) (fs0 : List Fn) (vs0 : List (Nat × Nat)) (fs : List Fn) (rest : List Line) :
-    source ⟨true, d, t, fs0, vs0⟩ (fs.map .defFn ++ rest) = source ⟨true, d, t, fs0 ++ fs, vs0⟩ rest := by
+/-- while `extglob` is set and no alias is known, every function definition is read -/
+theorem source_funcs (d t a : Bool) (fs0 : List Fn) (vs0 : List Var) (fs : List Fn) (rest : List Line) :
+    source ⟨true, d, t, a, fs0, [], vs0⟩ (fs.map .defFn ++ rest) = source ⟨true, d, t, a, fs0 ++ fs, [], vs0⟩ rest := by
   induction fs generalizing fs0 with
   | nil => simp
   | cons f r ih =>
-    simp only [List.map_cons, List.cons_append, source, Bool.not_true, Bool.and_false, Bool.false_eq_true,
-      if_false]
+    simp only [List.map_cons, List.cons_append, source, Bool.not_true, Bool.and_false, List.contains_nil,
+      Bool.or_self, Bool.false_eq_true, if_false]
     rw [ih (fs0 ++ [f])]
     simp
 
-theorem source_vars (e d t : Bool) (fs0 : List Fn) (vs0 vs : List (Nat × Nat)) :
-    source ⟨e, d, t, fs0, vs0⟩ (vs.map (fun kv => Line.setVar kv.1 kv.2)) = ⟨e, d, t, fs0, vs0 ++ vs⟩ := by
+theorem source_aliases (e d t a : Bool) (fs0 : List Fn) (as0 as : List Nat) (vs0 : List Var) (rest : List Line) :
+    source ⟨e, d, t, a, fs0, as0, vs0⟩ (as.map .defAlias ++ rest) = source ⟨e, d, t, a, fs0, as0 ++ as, vs0⟩ rest := by
+  induction as generalizing as0 with
+  | nil => simp
+  | cons x r ih =>
+    simp only [List.map_cons, List.cons_append, source]
+    rw [ih (as0 ++ [x])]
+    simp
+
+/-- while `allexport` is off, every variable comes back with the attribute it was written with -/
+theorem source_vars (e d t : Bool) (fs0 : List Fn) (as0 : List Nat) (vs0 vs : List Var) (rest : List Line) :
+    source ⟨e, d, t, false, fs0, as0, vs0⟩ (vs.map .setVar ++ rest) = source ⟨e, d, t, false, fs0, as0, vs0 ++ vs⟩ rest := by
   induction vs generalizing vs0 with
-  | nil => simp [source]
+  | nil => simp
   | cons v r ih =>
-    simp only [List.map_cons, source]
+    simp only [List.map_cons, List.cons_append, source, Bool.or_false]
     rw [ih (vs0 ++ [v])]
     simp
 
 /-- **everything is restored, whatever the options are when the state is written** -/
 theorem source_persist (s : St) : source fresh (persist s) = s := by
-  obtain ⟨e, d, t, fs, vs⟩ := s
-  simp only [persist, fresh, List.cons_append, List.nil_append, source, List.append_assoc]
-  rw [source_funcs d t [] [] fs]
-  simp only [List.nil_append, List.cons_append, source]
-  rw [source_vars e d t fs [] vs]
-  simp
+  obtain ⟨e, d, t, a, fs, as, vs⟩ := s
+  simp only [persist, fresh, optionLines, List.cons_append, List.nil_append, source, List.append_assoc]
+  rw [source_funcs false false false [] [] fs]
+  rw [source_aliases true false false false ([] ++ fs) [] as]
+  rw [source_vars true false false ([] ++ fs) ([] ++ as) [] vs]
+  simp [source]
 
 /-- without `errexit` every command of the sub-shell runs -/
 theorem runCmds_all (cs : List Cmd) : (runCmds false cs).1 = (cs.map (·.out)).flatten := by
@@ -45,18 +56,18 @@ theorem runCmds_ok (e : Bool) (cs : List Cmd) (h : ∀ c ∈ cs, c.status = 0) :
     have hr := ih (fun c hc => h c (by simp [hc]))
     simp [runCmds, hc, hr]
 
-theorem hookCmds_guarded_ok (s : St) : ∀ c ∈ hookCmds true s, c.status = 0 := by
+theorem hookCmds_ok (s : St) : ∀ c ∈ hookCmds s, c.status = 0 := by
   intro c hc
   simp [hookCmds] at hc
-  rcases hc with rfl | rfl | rfl | rfl | rfl | rfl <;> rfl
+  rcases hc with rfl | rfl | rfl | rfl | rfl <;> rfl
 
-theorem hookCmds_out (g : Bool) (s : St) : ((hookCmds g s).map (·.out)).flatten = persist s := by
+theorem hookCmds_out (s : St) : ((hookCmds s).map (·.out)).flatten = persist s := by
   simp [hookCmds, persist]
 
 /-- **the hook as it is now gets through under every option**: the complete state file is written and the test
 case ends with the status of its command -/
 theorem writeState_now (h : Hook) (s : St) (code : Nat) :
-    writeState true true h s code = (some (persist s), code) := by
-  simp [writeState, runCmds_ok h.errexit _ (hookCmds_guarded_ok s), hookCmds_out]
+    writeState (hookCmds s) true h code = (some (persist s), code) := by
+  simp [writeState, runCmds_ok h.errexit _ (hookCmds_ok s), hookCmds_out]
 
 end Scrut.StateFile
